@@ -127,8 +127,11 @@ func (dht *IpfsDHT) optimisticProvide(outerCtx context.Context, keyMH multihash.
 		return err
 	}
 
-	// initialize context that finishes when this function returns
-	innerCtx, innerCtxCancel := context.WithCancel(outerCtx)
+	// initialize context that finishes when this function returns. It must not
+	// be derived from outerCtx: a cancellation of outerCtx would end it too, and
+	// the select below would pick either branch, leaving the pending put
+	// operations running (and this function waiting for them) half of the time.
+	innerCtx, innerCtxCancel := context.WithCancel(context.Background())
 	defer innerCtxCancel()
 
 	go func() {
